@@ -19,7 +19,7 @@ from pv.canon import B, Exc, T, Val
 ID = "C20"
 COQ_REQUIRE = "C20.Run"
 COQ_DIRS = ["Gen/C20_Tables.v"]
-SHARD = 500
+SHARD = 1200
 RULE = ("ladder: every (platform in FreeBSD/OpenBSD/NetBSD/macOS/SunOS/AIX/Windows) x (public method of the platform Process "
         "class) x (native call the method makes, discovered by a fault-free run for pid 7 and pid 0) x (ESRCH, ENOENT, EPERM, "
         "EACCES, EIO, EINVAL; on Windows also winerror 5, 1314, 299, 87) x (alive, zombie, gone = not listed) x pid in {7, 0}, plus ESRCH for a PID "
@@ -132,11 +132,31 @@ def gen_cases(rng, tier):
                         for st in STATES:
                             cases.append({"kind": "ladder", "cls": "ladder-%s-%s" % (plat, e), "plat": plat, "meth": meth,
                                           "site": site, "err": e, "state": st, "pid": pid})
+    # ---- every native call of the method fails with the same error (really gone / really off-limits process)
+    for plat in PLATS:
+        errs = WIN_ERRS if plat == "windows" else POSIX_ERRS
+        for meth, sites in sorted(_PROBE["sites"][plat].items()):
+            first = (sites["7"] or sites["0"] or [None])[0]
+            if first is None:
+                continue
+            for pid in (7, 0):
+                if not sites[str(pid)]:
+                    continue
+                if pid == 0 and tier == "quick" and plat not in ("freebsd", "openbsd", "netbsd", "sunos"):
+                    continue
+                for e in errs:
+                    for st in STATES:
+                        if pid == 0 and tier == "quick" and (st == "zombie" or e not in ("ESRCH", "ENOENT", "EIO")):
+                            continue      # (the table theorem C20_allfail_contract covers the whole space on every run)
+                        cases.append({"kind": "allfail", "cls": "allfail-%s-%s" % (plat, e), "plat": plat, "meth": meth,
+                                      "site": first, "err": e, "state": st, "pid": pid})
     # ---- the zombie test for EVERY native status code of PROC_STATUSES (ESRCH; ENOENT too where it means "gone")
     for r in _PROBE["status"]:
         plat = r["plat"]
         for meth, sites in sorted(_PROBE["sites"][plat].items()):
             for pid in (7, 0):
+                if pid == 0 and tier == "quick":
+                    continue            # (C20_zombie_by_status_code covers pid 0 too on every run)
                 for site in sites[str(pid)]:
                     for code, _text in r["codes"]:
                         for e in (["ESRCH", "ENOENT"] if plat in ("sunos", "aix") else ["ESRCH"]):
@@ -173,6 +193,17 @@ def gen_cases(rng, tier):
         for _ in range(n_lay):
             cases.append({"kind": "layout", "cls": "layout-" + plat, "plat": plat, "meth": meth, "variant": var,
                           "records": _records(rng, plat)})
+        # "falsy sentinel" rows: 0 and -1 in each native int slot that a field copies
+        for _n, src in u["fields"]:
+            if src[0] != "Slot":
+                continue
+            for val in (0, -1):
+                if meth == "terminal" and val == -1:
+                    continue
+                rec = _records(rng, plat)
+                rec[src[1]][src[2]] = val
+                cases.append({"kind": "layout", "cls": "layout-falsy-" + plat, "plat": plat, "meth": meth, "variant": var,
+                              "records": rec})
     # ---- the decoded slot usage of every probed method/route (covers the list / dict / row answers too)
     for u in _PROBE["usage"]:
         cases.append({"kind": "olayout", "cls": "olayout-" + u["plat"], "plat": u["plat"], "meth": u["meth"], "variant": u["variant"]})
@@ -251,6 +282,9 @@ def coq_term(case):
         return "run_olayout %s %s %s" % (COQ_PLAT[case["plat"]], _qs(case["meth"]), _qs(case["variant"]))
     if k == "sysfields":
         return "run_sysfields %s %s" % (COQ_PLAT[case["plat"]], _qs(case["fn"]))
+    if k == "allfail":
+        return "run_allfail %s %s %s %s %s %s" % (COQ_PLAT[case["plat"]], _qs(case["meth"]), _qs(case["site"]), case["err"],
+                                                  COQ_STATE[case["state"]], G.z(case["pid"]))
     if k == "pair":
         return "run_pair %s %s %s %s %s %s %s %s" % (COQ_PLAT[case["plat"]], _qs(case["meth"]), _qs(case["site1"]), _qs(case["site2"]),
                                                      case["err1"], case["err2"], COQ_STATE[case["state"]], G.z(case["pid"]))
@@ -279,7 +313,7 @@ def coq_struct(case, raw):
         return {"model": [raw[0], raw[1], raw[2]], "spec": None, "missing": [raw[3], raw[4]]} if isinstance(raw, list) else {"model": raw, "spec": None}
     if k == "ladder":
         return {"model": raw[0], "spec": raw[1], "contract": raw[2]}
-    if k in ("layout", "dep", "nic", "pair", "retry", "wait", "sysfields", "olayout"):
+    if k in ("layout", "dep", "nic", "pair", "retry", "wait", "sysfields", "olayout", "allfail"):
         return {"model": raw[0], "spec": raw[1]}
     raise ValueError(k)
 
@@ -288,7 +322,7 @@ def coq_struct(case, raw):
 def finding_key(case, coq):
     # fixed (old inputs replayed from corpus/C20): windows-ppid-not-wrapped a2d103c, gids-returns-puids 1275da7+5229996,
     # sunos-terminal-ignores-ttynr 5229996.  Open: a PID 0 the OS does not list is taken to exist (_psposix.pid_exists(0)).
-    if case["kind"] == "ladder" and case["pid"] == 0 and case["state"] == "gone":
+    if case["kind"] in ("ladder", "allfail") and case["pid"] == 0 and case["state"] == "gone":
         if case["plat"] == "sunos" and case["err"] in ("ESRCH", "ENOENT"):
             return "pid0-unlisted-taken-to-exist"
         if case["plat"] == "netbsd" and case["meth"] == "cmdline" and case["site"] == "proc_cmdline" and case["err"] == "EINVAL":
@@ -383,7 +417,7 @@ def judge(case, coq, impl):
 
 
 def nontrivial(case, coq, impl):
-    return case["kind"] in ("ladder", "layout", "nic", "dep", "pair", "retry", "wait", "sysfields", "olayout")
+    return case["kind"] in ("ladder", "layout", "nic", "dep", "pair", "retry", "wait", "sysfields", "olayout", "allfail")
 
 
 # ------------------------------------------------------------------ implementation side (worker)
@@ -434,7 +468,7 @@ def impl_run(case, coq, env):
         return S.classify(L, kind, r)
     if k == "olayout":
         L = _layer(case["plat"], env)
-        if case["meth"] not in P.methods_of(L):
+        if not case["meth"].startswith("sys:") and case["meth"] not in P.methods_of(L):
             return T("NoSuchMethod")
         u = P.probe_usage(L, case["meth"], case["variant"])
         if u is None:
@@ -450,7 +484,7 @@ def impl_run(case, coq, env):
             if x[0] == "Fun":
                 return T("Fun", B(x[1]), list(x[2]))
             return T("Unknown")
-        return [B(u["shape"]), B(u["type"]), [[B(n), src(x)] for n, x in u["fields"]]]
+        return [B(u["shape"]), B(u["type"]), [[B(n), src(x)] for n, x in u["fields"]], [[B(n), v] for n, v in u["falsy_bad"]]]
     if k == "sysfields":
         pkg = _fe(case["plat"], env).mod
         cls = {"cpu_times": lambda: pkg._psplatform.scputimes, "virtual_memory": lambda: pkg._psplatform.svmem,
@@ -460,6 +494,12 @@ def impl_run(case, coq, env):
         if not callable(getattr(pkg, case["fn"], None)):
             return T("NoSuchFunction")
         return [B(f) for f in cls._fields]
+    if k == "allfail":
+        L = _layer(case["plat"], env)
+        if case["meth"] not in P.methods_of(L):
+            return T("NoSuchMethod")
+        kind, r = L.run(case["meth"], pid=case["pid"], state=case["state"], faults={"*": [(None, case["err"])]})
+        return S.classify(L, kind, r)
     if k == "pair":
         L = _layer(case["plat"], env)
         return P.pair_outcome(L, case["meth"], case["site1"], case["site2"], case["err1"], case["err2"], case["state"], case["pid"])
